@@ -174,10 +174,3 @@ func TestVX_C10_GCM(t *testing.T) {
 		}
 	}
 }
-
-func gcmPart(base string) string {
-	if p := partName(); p != "seal" {
-		return p
-	}
-	return base
-}
